@@ -927,6 +927,171 @@ pub fn rejected_number_items(e: &EFmt) -> Vec<(ItemKind, String)> {
     out
 }
 
+/// Truth / budget / fixed-stamp items with a character of every Unicode NUMERIC category and block inside the number
+/// list: Nd (Arabic-Indic, Devanagari, Thai, NKo, full-width, mathematical bold -- 2-, 3- and 4-byte), Nl (Roman
+/// numerals, ideographic zero, Hangzhou), No (superscript, vulgar fractions, circled / parenthesised numbers), and the
+/// look-alikes of the decimal point and of the separators (full-width dot, Arabic decimal separator, CJK numeral `一`
+/// of category Lo); alone, after / before an ASCII digit, after the dot.  (`char::is_numeric`, `is_digit(10)`,
+/// `to_digit` and code-point arithmetic disagree on exactly these; only ASCII digits are part of a number.)
+pub fn numeric_char_items(e: &EFmt) -> Vec<(ItemKind, String)> {
+    let (tl, tr, ts) = (e.sentence.truth_brackets.0, e.sentence.truth_brackets.1, e.sentence.truth_separator);
+    let (bl, br, bs) = (e.task.budget_brackets.0, e.task.budget_brackets.1, e.task.budget_separator);
+    let (sl, sr) = e.sentence.stamp_brackets;
+    let fixed = e.sentence.stamp_fixed;
+    let chars = [
+        '\u{0663}', '\u{0969}', '\u{0E53}', '\u{07C3}', '\u{FF10}', '\u{FF19}', '\u{1D7D3}', '\u{1D7FF}', // Nd
+        '\u{2163}', '\u{3007}', '\u{3021}', '\u{2188}', // Nl
+        '\u{00B2}', '\u{00BD}', '\u{2460}', '\u{3220}', '\u{2189}', '\u{10107}', // No
+        '\u{FF0E}', '\u{066B}', '\u{4E00}', '\u{FF11}', // look-alikes: full-width dot, Arabic decimal separator, CJK one (Lo)
+    ];
+    let mut out = vec![];
+    let mut k = 0usize;
+    for c in chars {
+        for p in [format!("{c}"), format!("1{c}"), format!("0.{c}"), format!("{c}5"), format!("0{c}5")] {
+            out.push((
+                ItemKind::Truth,
+                match k % 3 {
+                    0 => format!("{tl}{p}{ts}0.5{tr}"),
+                    1 => format!("{tl}0.5{ts}{p}{tr}"),
+                    _ => format!("{tl}{p}{tr}"),
+                },
+            ));
+            out.push((
+                ItemKind::Budget,
+                match k % 4 {
+                    0 => format!("{bl}{p}{bs}0.5{br}"),
+                    1 => format!("{bl}0.5{bs}0.5{bs}{p}{br}"),
+                    2 => format!("{bl}{p}{br}"),
+                    _ => format!("{bl}0.5{bs} {p} {bs}0.5{br}"),
+                },
+            ));
+            k += 1;
+        }
+        for p in [format!("{c}"), format!("1{c}"), format!("-{c}")] {
+            out.push((ItemKind::Stamp, format!("{sl}{fixed}{p}{sr}")));
+        }
+    }
+    out
+}
+
+/// a truth / budget number list in a judgement on `A`: `len` values, `trail` trailing separators, `full` = the most
+/// values the item takes; `texts[0]` is written without any blank, the others have blanks inside the brackets
+pub struct NumList {
+    pub kind: ItemKind,
+    pub len: usize,
+    pub trail: usize,
+    pub full: usize,
+    pub texts: Vec<String>,
+}
+
+/// Number lists of EVERY length 0..4 with 0, 1, 2 TRAILING separators (the README grammar: `n ~ (";" ~ n)* ~ ";"*`), for
+/// truth and budget, each written densely, with one blank at each single position inside the brackets (after the left
+/// bracket, around every number and separator, between trailing separators, before the right bracket), with blanks at
+/// all positions, and densely without the blank between the item and the sentence.  (The formatters never print a
+/// trailing separator or a blank inside the brackets, so formatter-shaped streams never leave the number loop through
+/// its "list is full" exit.)
+pub fn number_list_texts(e: &EFmt) -> Vec<NumList> {
+    let pj = e.sentence.punctuation_judgement;
+    let sp = e.space.parse;
+    let nums = ["0.5", "0.75", "0.4", "1", "0.9"];
+    let mut out = vec![];
+    for (kind, l, sep, r, full) in [
+        (ItemKind::Truth, e.sentence.truth_brackets.0, e.sentence.truth_separator, e.sentence.truth_brackets.1, 2usize),
+        (ItemKind::Budget, e.task.budget_brackets.0, e.task.budget_separator, e.task.budget_brackets.1, 3),
+    ] {
+        for len in 0..=4usize {
+            for trail in 0..=2usize {
+                let mut toks: Vec<&str> = vec![l];
+                for i in 0..len {
+                    if i != 0 {
+                        toks.push(sep);
+                    }
+                    toks.push(nums[i]);
+                }
+                for _ in 0..trail {
+                    toks.push(sep);
+                }
+                toks.push(r);
+                let gaps = toks.len() - 1;
+                let join = |blank_at: &dyn Fn(usize) -> bool| -> String {
+                    let mut s = String::new();
+                    for (i, t) in toks.iter().enumerate() {
+                        s.push_str(t);
+                        if i < gaps && blank_at(i) {
+                            s.push_str(sp);
+                        }
+                    }
+                    s
+                };
+                let mut items: Vec<String> = vec![join(&|_| false)];
+                for g in 0..gaps {
+                    items.push(join(&|i| i == g));
+                }
+                items.push(join(&|_| true));
+                let wrap = |item: &str, outer: &str| match kind {
+                    ItemKind::Budget => format!("{}{}A{}", item, outer, pj),
+                    _ => format!("A{}{}{}", pj, outer, item),
+                };
+                let mut texts = vec![wrap(&items[0], "")];
+                texts.extend(items.iter().map(|it| wrap(it, sp)));
+                texts.dedup();
+                out.push(NumList { kind, len, trail, full, texts });
+            }
+        }
+    }
+    out
+}
+
+/// A well-formed judgement of EXACTLY `len` characters (None when `len` is too small for the shape): `how` 0 / 1 / 2 =
+/// a short statement padded with blanks behind / in front / inside, 3 = a statement whose subject is one long name,
+/// 4 = a statement whose subject is a product of as many one-letter components as fit (the rest: blanks behind).
+/// For inputs AT size thresholds (2^k - 1, 2^k, 2^k + 1, 10^n): length guards, counters narrowed to u8 / u16, buffers.
+pub fn sized_text(e: &EFmt, len: usize, how: usize) -> Option<String> {
+    let st = &e.statement;
+    let c = &e.compound;
+    let pj = e.sentence.punctuation_judgement;
+    let sp = e.space.parse;
+    let n = |s: &str| s.chars().count();
+    if n(sp) != 1 {
+        return None;
+    }
+    let cop = st.copula_inheritance;
+    match how {
+        0 | 1 | 2 => {
+            let base = format!("{}A {} B{}{}", st.brackets.0, cop, st.brackets.1, pj);
+            let pad = sp.repeat(len.checked_sub(n(&base))?);
+            Some(match how {
+                0 => base + &pad,
+                1 => pad + &base,
+                _ => format!("{}A {}{} B{}{}", st.brackets.0, cop, pad, st.brackets.1, pj),
+            })
+        }
+        3 => {
+            let over = n(st.brackets.0) + 1 + n(cop) + 2 + n(st.brackets.1) + n(pj);
+            let k = len.checked_sub(over)?;
+            if k == 0 {
+                return None;
+            }
+            Some(format!("{}{} {} B{}{}", st.brackets.0, "a".repeat(k), cop, st.brackets.1, pj))
+        }
+        _ => {
+            let head = format!("{}{}{}{}", st.brackets.0, c.brackets.0, c.connecter_product, c.separator);
+            let tail = format!("{} {} r{}{}", c.brackets.1, cop, st.brackets.1, pj);
+            let room = len.checked_sub(n(&head) + n(&tail) + 1)?;
+            let unit = format!("{}w", c.separator);
+            let m = room / n(&unit);
+            let mut s = head;
+            s.push('w');
+            for _ in 0..m {
+                s.push_str(&unit);
+            }
+            s.push_str(&tail);
+            let pad = len - n(&s);
+            Some(s + &sp.repeat(pad))
+        }
+    }
+}
+
 /// an item of `rejected_number_items` at its place in a judgement on `A`
 pub fn item_in_sentence(e: &EFmt, kind: ItemKind, item: &str) -> String {
     let pj = e.sentence.punctuation_judgement;
